@@ -7,12 +7,31 @@ import NormModel.Model.Reports
 import NormModel.Model.Cli
 import NormModel.Model.Lexer
 import NormModel.Model.Engine
+import NormModel.Model.Header
+import NormModel.Generated.HeaderRegex
 open Lean Norm
 
 /-- engine op: the rule table is replayed from the decisions recorded on the real run:
 each decision is `null` (no primary matched) or `[rule, jump]`, or `"fatal"`. -/
+def headerHandle (op : String) (j : Json) : Except String Json := do
+  match op with
+  | "hdr" =>
+    let cs ← (← (j.getObjValD "text").getArr?).toList.mapM (fun x => do let n ← x.getNat?; pure (Char.ofNat n))
+    pure (Json.mkObj [("search", Json.bool (searchNfa Generated.headerRegex cs))])
+  | "hdrrun" =>
+    let evs ← (← (j.getObjValD "events").getArr?).toList.mapM (fun e => do
+      let a ← e.getArr?
+      let isC ← a[0]!.getBool?
+      let v ← if a[1]!.isNull then pure none else do
+        let cs ← (← a[1]!.getArr?).toList.mapM (fun x => do let n ← x.getNat?; pure (Char.ofNat n))
+        pure (some cs)
+      pure (⟨isC, v⟩ : HEvent))
+    let st := headerRun (searchNfa Generated.headerRegex) evs
+    pure (Json.mkObj [("errors", Json.num (st.errors : JsonNumber)), ("parsed", Json.bool st.parsed)])
+  | _ => throw ("unknown op " ++ op)
+
 def engineHandle (op : String) (j : Json) : Except String Json := do
-  if op != "engine" then throw ("unknown op " ++ op)
+  if op != "engine" then return (← headerHandle op j)
   let n ← (j.getObjValD "n").getNat?
   let debug ← (j.getObjValD "debug").getNat?
   let ds ← (j.getObjValD "decisions").getArr?
